@@ -9,7 +9,7 @@ git -C /repo worktree add --detach "$wt" HEAD >/dev/null 2>&1 || { echo "$name: 
 cleanup() { git -C /repo worktree remove --force "$wt" >/dev/null 2>&1; rm -rf "$wt"; }
 trap cleanup EXIT
 pkg=$(python3 -c "import json,sys;print(json.load(open('$d/meta.json')).get('demo_pkg_dir','.'))" 2>/dev/null || echo .)
-demo=$(ls "$d"/demo_test.go 2>/dev/null | head -1)
+demo=$(ls "$d"/demo_test.go "$d"/demo_test.go.txt 2>/dev/null | head -1)
 run_demo() { # returns 0 if the demo passes
   cp "$demo" "$wt/$pkg/zz_seed_demo_test.go"
   (cd "$wt/$pkg" && timeout 600 go test -vet=off -count=1 -run . -timeout 300s . >"$2" 2>&1)
